@@ -122,6 +122,42 @@ pub fn table_part(opts: &Opts, rep: &mut Report) {
             rep.count("c16.normalized-chars");
         }
     }
+    // the two maps are functions of the character alone: asked again right after a different character whose code point
+    // agrees with it in the low 8 / 16 bits (and in other orders than ascending), the answer is the same
+    let mut order_checked = 0u64;
+    let mut mismatch: Option<(u32, u32, char, char)> = None;
+    'outer: for u in (0..=0x10FFFFu32).rev() {
+        let Some(c) = char::from_u32(u) else { continue };
+        for alias in [u & 0xFFFF, u & 0xFF, (u & 0xFFFF) | 0x10000, u ^ 0x20, u.wrapping_add(0x100) & 0x1FFFF] {
+            let Some(b) = char::from_u32(alias) else { continue };
+            if b == c {
+                continue;
+            }
+            let _ = (chars::to_lower_case(c), chars::normalize(c));
+            let (f, n) = (chars::to_lower_case(b), chars::normalize(b));
+            order_checked += 1;
+            let expected_fold = fold.get(&alias).and_then(|&t| char::from_u32(t)).unwrap_or(b);
+            if f != expected_fold {
+                mismatch = Some((u, alias, f, expected_fold));
+                break 'outer;
+            }
+            if let Some(&base) = nfkd.get(&alias) {
+                if n != base {
+                    mismatch = Some((u, alias, n, base));
+                    break 'outer;
+                }
+            }
+        }
+    }
+    rep.add("c16.lookups-right-after-an-aliasing-character", order_checked);
+    if let Some((u, alias, got, want)) = mismatch {
+        rep.violation(
+            "C16",
+            "character-map-depends-on-earlier-lookups",
+            "alias".into(),
+            jobj! {"looked_up_first" => format!("U+{u:04X}"), "then" => format!("U+{alias:04X}"), "got" => format!("U+{:04X}", got as u32), "expected" => format!("U+{:04X}", want as u32)},
+        );
+    }
     rep.add("c16.scalars-enumerated", scalars);
     rep.add("c16.table-exhaustive", 1);
 }
